@@ -271,6 +271,9 @@ func (b *Builder) funcAttr(a string) ir.FuncAttribute {
 		in := a[len("vscale_range(") : len(a)-1]
 		p := strings.Split(in, ",")
 		mn, _ := strconv.Atoi(strings.TrimSpace(p[0]))
+		if len(p) == 1 {
+			return ir.VectorScaleRange{Min: -1, Max: mn} // one argument: the documented spelling of "omitted"
+		}
 		mx, _ := strconv.Atoi(strings.TrimSpace(p[1]))
 		return ir.VectorScaleRange{Min: mn, Max: mx}
 	case a == "uwtable":
@@ -656,7 +659,7 @@ func (b *Builder) value(v *am.Value) value.Value {
 	case am.VInlineAsm:
 		a := v.Asm
 		ia := ir.NewInlineAsm(b.ts.Type(am.P(a.T)), a.Asm, a.Constraints)
-		ia.SideEffect, ia.AlignStack, ia.IntelDialect = a.SideEffect, a.AlignStack, a.Intel
+		ia.SideEffect, ia.AlignStack, ia.IntelDialect, ia.Unwind = a.SideEffect, a.AlignStack, a.Intel, a.Unwind
 		return ia
 	case am.VMetadata:
 		return &metadata.Value{Value: b.mdField(v.MD)}
